@@ -238,8 +238,15 @@ def run_check(pid: str, tier: str, seed: int) -> int:
     t0 = time.time()
     mod = importlib.import_module(CHECKS[pid])
     _MOD = mod
-    mod.setup()
-    blocks = list(mod.blocks(tier, seed))
+    try:
+        mod.setup()
+        blocks = list(mod.blocks(tier, seed))
+    except BaseException as e:  # noqa
+        if type(e).__name__ != "NotDecided":
+            raise
+        # the harness cannot even be set up on this tree (a private function it is built around is gone): nothing is decided
+        print("NOT DECIDED: %s %s cannot be set up on this tree - %s" % (pid, tier, e), file=sys.stderr)
+        return 0
     budget = getattr(mod, "BUDGET", {"quick": 60, "thorough": 900})[tier]
     budget = float(os.environ.get("VERIF_BUDGET", budget))
     # the budget is sized for 16 idle cores; on a machine that is busy with other work the same enumeration needs more
